@@ -78,13 +78,13 @@ PROPS = {
         technique='Kani/CBMC bounded model checking, inductive: one safe mutator call from an arbitrary valid buffer with an arbitrary valid argument, post-state re-validated against the grammar table; handle invariant for sequences',
         level_text='Well-formedness is an inductive invariant: for every valid buffer text and every valid argument within the byte bounds, after one call of each setter, path edit (push/pop/clear/symbolic_push/symbolic_append/normalize) or authority edit the text is again accepted by the type grammar (table twin of the current automaton), is UTF-8, and no call panics, overflows or indexes out of bounds; the path/authority handle is shown to view exactly the fresh path()/authority() after each call, so sequences through one handle reduce to sequences of fresh handles (2-op same-handle harness as a direct cross-check in the thorough tier). In-place resolve is not covered (C06).',
         level_note=BMC_NOTE + ' Heap: buffers have concrete capacity 40; Vec::resize is replaced by an in-capacity version that asserts new_len <= capacity (a buffer that starts empty gets one allocation of that capacity).',
-        outside="buffers beyond 3-5 bytes, arguments beyond 1-3 bytes, reallocation, spilled SmallVecs, in-place resolve(); in the quick tier: set_path, push, pop, set_userinfo, set_host and the constructors only (the other mutators' harnesses are listed under C04 in the thorough tier and decide C05/C10/C11/C09 in both)",
+        outside="buffers beyond 3-5 bytes, arguments beyond 1-3 bytes, reallocation, spilled SmallVecs, in-place resolve(); in the quick tier: set_path, push, pop, set_userinfo(Some), set_host and the constructors only (the other mutators' harnesses are listed under C04 in the thorough tier and decide C05/C10/C11/C09 in both)",
         stubs=[TABLE_STUB, 'Vec::resize -> in-capacity version (asserts)', 'SmallVec::{push,extend_from_slice} -> pointer-loop versions asserting no spill; SmallVec::try_grow -> panic', 'mem::forget at harness end'],
         assumptions=['one inductive step per mutator; the invariant is: text accepted by the type grammar'],
     ),
     'C07': dict(
         technique='Kani/CBMC bounded model checking of the real PartialEq/Ord impls on pairs against a canonical-form oracle (decoded octets, dot-free segment lists)',
-        level_text='For all pairs of component values within the byte bounds (fully symbolic pairs of segments, hosts, IRI segments <= 3-4 bytes each incl. every escaped octet; schemes and ports <= 4 bytes) and for (authority <= 6 bytes) x (listed representatives) CBMC proves a == b exactly when the canonical forms (percent-decoded octets; literal scheme/port) are equal, symmetric, and that no comparison panics. Path and whole-reference equality are the derived/hand-written composition of these with the normalized-segment sequence decided under C09; their direct harnesses (value <= 4-5 bytes x listed representatives) take 17-35 min and 16-30 GB each and are stretch harnesses of the thorough tier whose completion is reported in the evidence.',
+        level_text='For all pairs of component values within the byte bounds (fully symbolic pairs of segments, hosts, IRI segments <= 3-4 bytes each incl. every escaped octet; schemes and ports <= 4 bytes) and for (authority <= 6 bytes) x (listed representatives) CBMC proves a == b exactly when the canonical forms (percent-decoded octets; literal scheme/port) are equal, symmetric, and that no comparison panics. Path and whole-reference equality are the derived/hand-written composition of these with the normalized-segment sequence; the dot-segment stack discipline of that sequence (paths <= 7 bytes over the alphabet dot, slash, a against the RFC 5.2.4 oracle, shared with C09) is part of the quick tier of this property because path equality is only as right as it is; their direct harnesses (value <= 4-5 bytes x listed representatives) take 17-35 min and 16-30 GB each and are stretch harnesses of the thorough tier whose completion is reported in the evidence.',
         level_note=BMC_NOTE + ' Fully symbolic pairs of paths/URIs do not fit (two SmallVec normalisations); whole-URI equality is additionally justified structurally: it is the derived PartialEq of the parts() struct, whose fields are decided by C02 and by the component-level harnesses.',
         outside='component pairs beyond 3-6 bytes each; path / reference pairs in the quick tier (thorough stretch only, and only against listed representatives); triples',
         stubs=[TABLE_STUB, 'SmallVec::push -> pointer-loop version asserting no spill; SmallVec::try_grow -> panic'],
@@ -116,9 +116,9 @@ PROPS = {
     ),
     'C11': dict(
         technique='Kani/CBMC bounded model checking of each authority edit from an arbitrary valid reference with an authority, result compared bytewise with a section 3.2 recomposition; handle invariant',
-        level_text='For every valid reference with an authority and every valid new user info / host / port (set or removed; one harness per operation and per set/remove) within the byte bounds CBMC proves the buffer afterwards is bytewise the original with exactly that sub-component replaced (compared in place with the section 3.2 recomposition), is valid, and that the handle views exactly the authority a fresh authority() returns. Quick bounds are 3-4 bytes of text and 1-2 bytes of argument because one authority edit costs 8-21 GB and 5-15 min of CBMC whatever is asserted afterwards; the thorough tier adds 4-6 byte texts and a two-op harness with symbolic op choice through ONE handle compared with the same ops through fresh handles (stretch).',
+        level_text='For every valid reference with an authority and every valid new user info / host / port (set or removed; one harness per operation and per set/remove) within the byte bounds CBMC proves the buffer afterwards is bytewise the original with exactly that sub-component replaced (compared in place with the section 3.2 recomposition), is valid, and that the handle views exactly the new authority. In the quick tier (text <= 3 bytes, argument <= 1-2 bytes) the handle statement is arithmetic - same start pointer, length moved by exactly the length change of the text, which with the bytewise comparison pins the handle to the replaced piece; the thorough harnesses (text <= 4 bytes) compare pointer and length with a fresh authority() parse of the buffer, which alone costs as much as the edit (5-10 min, 8-20 GB of CBMC for one authority edit whatever is asserted afterwards). The thorough tier also has 4-6 byte texts and a two-op harness with symbolic op choice through ONE handle compared with the same ops through fresh handles (stretch).',
         level_note=BMC_NOTE + ' Heap: buffers have concrete capacity 40; Vec::resize is replaced by an in-capacity version that asserts new_len <= capacity (a buffer that starts empty gets one allocation of that capacity).',
-        outside='references beyond 3-4 bytes (quick) / 6 bytes (thorough stretch), arguments beyond 1-2 bytes, sequences longer than two through one handle',
+        outside='references beyond 3 bytes (quick) / 4-6 bytes (thorough stretch), arguments beyond 1-2 bytes, set_port(Some) in the quick tier, sequences longer than two through one handle',
         stubs=[TABLE_STUB, 'Vec::resize -> in-capacity version (asserts)'],
         assumptions=['oracle: harness/src/oracle.rs::split_auth + recomposition'],
     ),
@@ -140,9 +140,9 @@ PROPS = {
     ),
     'C18': dict(
         technique='Kani/CBMC bounded model checking of the real DataUrl / DataUrlBuf constructors and accessors against a shape oracle (Uri::validate stubbed by its table twin)',
-        level_text='For every byte string within the bound (quick: <= 7 bytes; thorough stretch: <= 9 bytes, and <= 13 bytes for texts starting with data: so that ;base64, fits - 25+ min each) CBMC proves the borrowed constructor accepts exactly the valid URIs of the shape data:<media chars>[;base64],<data>, that its re-scanning accessors and parts() equal the oracle split (pointer and length) and reassemble the text, that the borrowed loop{} scanners terminate (unwinding assertions); and for every byte string <= 9 bytes that the owned constructor accepts the same set and its offset-based accessors and its borrowed view equal the same split. decoded_data() links the base64 engine and is a thorough-tier stretch harness (non-base64 branch only); the base64 decoding itself (base64 crate) is NOT decided in any tier.',
+        level_text='For every byte string within the bound (quick: <= 9 bytes; thorough stretch: <= 13 bytes, first for texts starting with data: so that ;base64, fits, then for any text - 25+ min each) CBMC proves the borrowed constructor accepts exactly the valid URIs of the shape data:<media chars>[;base64],<data>, that its re-scanning accessors and parts() equal the oracle split (pointer and length) and reassemble the text, that the borrowed loop{} scanners terminate (unwinding assertions); and for every byte string <= 9 bytes that the owned constructor accepts the same set and its offset-based accessors and its borrowed view equal the same split. decoded_data() links the base64 engine and is a thorough-tier stretch harness (non-base64 branch only); the base64 decoding itself (base64 crate) is NOT decided in any tier.',
         level_note=BMC_NOTE,
-        outside='texts beyond 7 bytes in the quick tier (so the ;base64 branch, 13 bytes, is thorough-only), 9-13 bytes in the thorough tier; decoded_data() in the quick tier; the base64 decoding performed by the base64 crate',
+        outside='texts beyond 9 bytes in the quick tier (so the ;base64 branch, 13 bytes, is thorough-only), 13-18 bytes in the thorough tier; decoded_data() in the quick tier; the base64 decoding performed by the base64 crate',
         stubs=['Uri::validate -> table twin of the same automaton (extracted per run)'],
         assumptions=['media type characters as listed in data.rs::is_media_type_char (the oracle repeats the list)'],
     ),
